@@ -107,9 +107,9 @@ def run(ctx):
         argvs.append([drv, "--out", tp, "--scratch", os.path.join(ctx.scratch, "st%d" % k), "--script", sp,
                       "--programs", str(nprog), "--snippets", "12", "--salt", str(k),
                       "--vectors", os.path.join(REPO, "src/vm/testdata"), "--vecperfile", str(perfile),
-                      "--shard", str(k), "--shards", str(shards), "--exp", str((1 if k < 2 else 0) if quick else 4)])
+                      "--shard", str(k), "--shards", str(shards), "--matrix", "quick" if quick else "full", "--exp", str((1 if k < 2 else 0) if quick else 4)])
     outs = ctx.run_parallel(argvs, timeout=900)
-    tot = {"programs": 0, "steps": 0, "events": 0, "vectors": 0, "tlc_programs": 0}
+    tot = {"programs": 0, "steps": 0, "events": 0, "vectors": 0, "tlc_programs": 0, "matrix_programs": 0}
     ops, faults = {}, {}
     for o in outs:
         for line in o.splitlines():
@@ -156,7 +156,8 @@ def run(ctx):
         "traces_validated_against_impl": tot["programs"],
         "events_validated": total_events,
         "interpreter_steps_recorded": tot["steps"],
-        "generated_programs": tot["programs"] - tot["vectors"] - tot["tlc_programs"],
+        "generated_programs": tot["programs"] - tot["vectors"] - tot["tlc_programs"] - tot["matrix_programs"],
+        "boundary_matrix_programs": tot["matrix_programs"],
         "tlc_generated_programs": tot["tlc_programs"],
         "repository_vectors": tot["vectors"],
         "opcode_histogram": {str(k): ops[k] for k in sorted(ops)},
